@@ -39,7 +39,7 @@ MonInit(P) ==
    lastChk |-> NoChk, chkFresh |-> FALSE, mustSched |-> 0,
    errsExp |-> 0, errSeen |-> FALSE,
    prevRoots |-> {}, clean |-> FALSE, sessOk |-> TRUE,
-   aborted |-> FALSE, everFault |-> FALSE,
+   aborted |-> FALSE, everFault |-> FALSE, sessBU |-> FALSE,
    changed |-> {}, reported |-> {}, buOk |-> FALSE,   \* C03 domain bookkeeping
    staleTD |-> {},
    lastEv |-> "", lastT |-> 0, lastO |-> NONE, lastReqEnd |-> [t |-> 0, o |-> NONE],
@@ -146,7 +146,7 @@ Nest(m, e) ==
 OnSessStart(P, m, st, e) ==
   R([m EXCEPT !.sessN = @ + 1, !.inSess = TRUE, !.probe = e.probe, !.res0 = st.res, !.roots = <<>>,
               !.execd = [t \in 1..P.nt |-> 0], !.validated = {}, !.build = "none", !.vstk = <<>>, !.nstk = <<>>,
-              !.errsExp = 0, !.errSeen = FALSE, !.sessOk = TRUE, !.pend = NoPend, !.exp = NoExp], {})
+              !.errsExp = 0, !.errSeen = FALSE, !.sessOk = TRUE, !.pend = NoPend, !.exp = NoExp, !.sessBU = FALSE], {})
 
 OnRootCall(P, m, st, e) ==
   R([m EXCEPT !.curRoot = e.t, !.build = "td", !.bexecd = {}], {})
@@ -157,7 +157,7 @@ OutputFormula(P, m, st, e, roots2) ==
   IN IF S.status = "ok"
      THEN V(e.o = S.out[e.t], <<own, "output">>)
           \cup V(\A r \in 1..P.nr : S.wtr[r] = 0 \/ st.res[r] = S.res[r], <<own, "written_content">>)
-          \cup (IF P.exact /\ P.fam \in {"WF", "IDENT"} /\ ~m.aborted /\ ~m.everFault /\ ~(m.probe /\ m.buOk) /\ m.staleTD = {}
+          \cup (IF P.exact /\ P.fam \in {"WF", "IDENT"} /\ ~m.aborted /\ ~m.everFault /\ ~(m.probe /\ m.buOk) /\ m.staleTD = {} /\ ~m.sessBU
                 THEN V({t \in 1..P.nt : m.execd[t] > 0} \subseteq S.vis, <<"C02", "superfluous_execution">>) ELSE {})
      ELSE IF P.fam \in WFFams THEN {<<"INTEGRITY", "wf_scenario_not_wf_" \o S.status>>} ELSE {}
 
@@ -205,7 +205,7 @@ OnPanic(P, m, st, e) ==
   IN RK(m2, vExp \cup v20 \cup v063 \cup vBug, k20)
 
 OnBuBegin(P, m, st, e) ==
-  R([m EXCEPT !.build = "bu", !.bexecd = {}, !.reported = {}, !.buOk = FALSE, !.vstk = <<>>], {})
+  R([m EXCEPT !.build = "bu", !.bexecd = {}, !.reported = {}, !.buOk = FALSE, !.vstk = <<>>, !.sessBU = TRUE], {})
 OnBuSched(P, m, st, e) == R([m EXCEPT !.reported = @ \cup {e.r}], {})
 OnBuRet(P, m, st, e) ==
   LET complete == m.changed \subseteq m.reported
